@@ -6,6 +6,7 @@ h2/connection
 An implementation of a HTTP/2 connection.
 """
 import base64
+import re
 
 from enum import Enum, IntEnum
 
@@ -2188,4 +2189,9 @@ def _decode_headers(decoder, encoded_header_block):
         # We should only need HPACKError here, but versions of HPACK older
         # than 2.1.0 throw all three others as well. For maximum
         # compatibility, catch all of them.
-        raise ProtocolError("Error decoding header block: %s" % e)
+        #
+        # Some HPACK error messages embed the repr() of a memoryview, memory
+        # address included: keep that out of our own message, which would
+        # otherwise differ from one run to the next for the same input.
+        detail = re.sub(r' at 0x[0-9a-fA-F]+', '', str(e))
+        raise ProtocolError("Error decoding header block: %s" % detail)
